@@ -52,6 +52,7 @@ type certDesc struct {
 	eku                        []int
 	ueku, crit                 bool
 	pool                       string
+	vers                       int // 0 or 3: v3 as CreateCertificate makes it; 1, 2: re-signed without extensions
 }
 
 func splitList(s string) []string {
@@ -81,6 +82,12 @@ func parseCertDesc(s string) (certDesc, bool) {
 	d.ski, d.aki = atoi(f[5]), atoi(f[6])
 	d.nb, d.na = atoi(f[7]), atoi(f[8])
 	d.bc, d.ca = f[9] == "1", f[10] == "1"
+	switch f[9] {
+	case "v1":
+		d.vers = 1
+	case "v2":
+		d.vers = 2
+	}
 	d.mpl, d.ku = atoi(f[11]), atoi(f[12])
 	d.perm, d.dns, d.ips = splitList(f[13]), splitList(f[14]), splitList(f[15])
 	d.cn, d.icn = f[16], f[17]
@@ -154,7 +161,55 @@ func makeCert(d certDesc) (*x509.Certificate, error) {
 	if err != nil {
 		return nil, err
 	}
+	if d.vers == 1 || d.vers == 2 {
+		if der, err = downgradeCert(der, d.vers, signer); err != nil {
+			return nil, err
+		}
+	}
 	return x509.ParseCertificate(der)
+}
+
+// downgradeCert turns a v3 certificate into an X.509 v1 or v2 one: the version field is dropped (v1) or set
+// to 1 (v2), the extensions are dropped, and the new TBSCertificate is signed again by the same signer the way
+// CreateCertificate signs for an SM2 key (the signer hashes the TBS bytes itself).
+func downgradeCert(der []byte, vers int, signer *sm2.PrivateKey) ([]byte, error) {
+	var outer struct {
+		TBS asn1.RawValue
+		Alg asn1.RawValue
+		Sig asn1.BitString
+	}
+	if rest, err := asn1.Unmarshal(der, &outer); err != nil || len(rest) != 0 {
+		return nil, fmt.Errorf("downgrade: outer: %v", err)
+	}
+	var body []byte
+	rest := outer.TBS.Bytes
+	for len(rest) > 0 {
+		var el asn1.RawValue
+		var err error
+		if rest, err = asn1.Unmarshal(rest, &el); err != nil {
+			return nil, fmt.Errorf("downgrade: tbs: %v", err)
+		}
+		if el.Class == asn1.ClassContextSpecific && (el.Tag == 0 || el.Tag == 3) {
+			continue
+		}
+		body = append(body, el.FullBytes...)
+	}
+	if vers == 2 {
+		body = append([]byte{0xa0, 3, 2, 1, 1}, body...)
+	}
+	tbs, err := asn1.Marshal(asn1.RawValue{Class: asn1.ClassUniversal, Tag: asn1.TagSequence, IsCompound: true, Bytes: body})
+	if err != nil {
+		return nil, err
+	}
+	sig, err := signer.Sign(rand.Reader, tbs, nil)
+	if err != nil {
+		return nil, err
+	}
+	return asn1.Marshal(struct {
+		TBS asn1.RawValue
+		Alg asn1.RawValue
+		Sig asn1.BitString
+	}{asn1.RawValue{FullBytes: tbs}, outer.Alg, asn1.BitString{Bytes: sig, BitLength: len(sig) * 8}})
 }
 
 // chain <cert;cert;...> <now,dnsName,usages>
@@ -285,8 +340,12 @@ func (d certDesc) String() string {
 		}
 		return x
 	}
+	bcv := b(d.bc)
+	if d.vers == 1 || d.vers == 2 {
+		bcv = "v" + strconv.Itoa(d.vers)
+	}
 	return strings.Join([]string{strconv.Itoa(d.id), strconv.Itoa(d.subj), strconv.Itoa(d.iss), strconv.Itoa(d.key), strconv.Itoa(d.signer),
-		opt(d.ski), opt(d.aki), strconv.Itoa(d.nb), strconv.Itoa(d.na), b(d.bc), b(d.ca), strconv.Itoa(d.mpl), strconv.Itoa(d.ku),
+		opt(d.ski), opt(d.aki), strconv.Itoa(d.nb), strconv.Itoa(d.na), bcv, b(d.ca), strconv.Itoa(d.mpl), strconv.Itoa(d.ku),
 		l(d.perm), l(d.dns), l(d.ips), s(d.cn), s(d.icn), l(ek), b(d.ueku), b(d.crit), d.pool}, ",")
 }
 
@@ -350,6 +409,11 @@ func genC10(r *rng, tier string, emit func(string)) {
 				}
 			case 10:
 				d.ueku = true
+			case 11, 12:
+				if isCA { // a legacy X.509 v1 / v2 certificate: no extensions at all
+					d.vers = 1 + r.intn(2)
+					d.bc, d.ca, d.mpl, d.ku, d.perm, d.ski, d.aki, d.eku, d.ueku = false, false, -1, 0, nil, -1, -1, nil, false
+				}
 			}
 		}
 		for k := 0; k < nRoots; k++ {
